@@ -326,6 +326,100 @@ pub fn test_wasm_config(c: &WasmCfgCase, ctx: &mut CaseCtx) -> Result<(), String
     Ok(())
 }
 
+// ------------------------------------------------------------------------------------------------
+// external format: language-server settings {"harper-ls": {"linters": {...}, "dialect": ..}}
+
+#[derive(Debug, Clone, Serialize, Deserialize, PartialEq, Eq, Hash)]
+pub struct LspCfgCase {
+    pub user: Vec<(String, Option<bool>)>,
+    pub dialect: u8,
+    pub text: String,
+}
+
+thread_local! {
+    static SRV: RefCell<Option<(crate::lsp::Sandbox, crate::lsp::Server, u64)>> = const { RefCell::new(None) };
+}
+
+pub fn test_lsp_config(c: &LspCfgCase, ctx: &mut CaseCtx) -> Result<(), String> {
+    use crate::oracle::lsp_pos::index_to_pos;
+    let dialect_name = ["American", "British", "Australian", "Canadian"][c.dialect as usize % 4];
+    let linters: serde_json::Map<String, Value> = c
+        .user
+        .iter()
+        .map(|(k, v)| (k.clone(), v.map(Value::Bool).unwrap_or(Value::Null)))
+        .collect();
+    let res: Result<Vec<crate::lsp::Diag>, crate::lsp::LspError> = SRV.with(|slot| {
+        let mut slot = slot.borrow_mut();
+        if slot.is_none() {
+            let sb = crate::lsp::Sandbox::new("c11");
+            let settings = sb.settings(serde_json::json!({}));
+            let srv = crate::lsp::Server::start(&sb, settings, None)?;
+            *slot = Some((sb, srv, 0));
+        }
+        let r = (|| {
+            let (sb, srv, n) = slot.as_mut().unwrap();
+            *n += 1;
+            let settings = sb.settings(serde_json::json!({"linters": linters, "dialect": dialect_name}));
+            srv.settings = settings.clone();
+            srv.notify("workspace/didChangeConfiguration", serde_json::json!({"settings": settings}))?;
+            let uri = sb.uri(&format!("cfg{n}.txt"));
+            let d = srv.open(&uri, "plaintext", &c.text)?;
+            srv.close(&uri)?;
+            Ok(d)
+        })();
+        if r.is_err() {
+            *slot = None;
+        }
+        r
+    });
+    let got = match res {
+        Ok(d) => d,
+        Err(e) => {
+            ctx.infra(e);
+            return Ok(());
+        }
+    };
+    // model
+    let mut cfg = config_from(&c.user);
+    cfg.fill_with_curated();
+    let dict = FstDictionary::curated();
+    let doc = Document::new(&c.text, &PlainEnglish, &dict);
+    let mut group = LintGroup::new_curated(dict, crate::generators::DIALECTS[c.dialect as usize % 4]).with_lint_config(cfg);
+    let want = match crate::core::catch(|| group.lint(&doc)) {
+        Ok(l) => l,
+        Err(_) => {
+            ctx.class("skipped_c01_panic");
+            return Ok(());
+        }
+    };
+    let text: Vec<char> = c.text.chars().collect();
+    let mut a: Vec<String> = got.iter().map(|d| format!("{:?}-{:?} {}", d.start, d.end, d.message)).collect();
+    let mut b: Vec<String> = want
+        .iter()
+        .map(|l| {
+            let s = index_to_pos(&text, l.span.start);
+            let e = index_to_pos(&text, l.span.end);
+            format!("{:?}-{:?} {}", (s.line, s.col), (e.line, e.col), l.message)
+        })
+        .collect();
+    a.sort();
+    b.sort();
+    let off_default_on = c.user.iter().any(|(k, v)| *v == Some(true) && !LintGroupConfig::new_curated().is_rule_enabled(k) && harvest().rule_keys.contains(k));
+    ctx.class_if(off_default_on, "turns_on_a_default_off_rule");
+    ctx.class_if(!b.is_empty(), "has_lints");
+    ctx.class_if(c.user.iter().any(|(_, v)| *v == Some(false)), "explicit_off");
+    if !b.is_empty() && !c.user.is_empty() {
+        ctx.nontrivial(c);
+    }
+    if a != b {
+        return Err(format!(
+            "harper-ls with linters={} dialect={dialect_name} publishes {:?} for {:?}; the model (curated overlaid with the user's choices) gives {:?}",
+            Value::Object(linters), a, c.text, b
+        ));
+    }
+    Ok(())
+}
+
 fn user_entries() -> BoxedStrategy<Vec<(String, Option<bool>)>> {
     let key = prop_oneof![
         10 => g::rule_key(),
@@ -402,6 +496,34 @@ pub fn run(run: &mut Run) {
         test_wasm_config,
     );
     run.require_class("harper_js_config", "has_lints", (n / 3) as u64);
+
+    let n = run.n(200, 5_000);
+    let saved = run.threads;
+    run.threads = run.threads.min(8);
+    run.prop(
+        "language_server_settings",
+        n,
+        || {
+            let default_off = prop_oneof![
+                3 => g::sel_str(&["SpelledNumbers", "LinkingVerbs", "BoringWords", "UseGenitive", "NoOxfordComma"]).prop_map(|k| vec![(k, Some(true))]),
+                2 => Just(vec![]),
+            ];
+            let text = prop_oneof![
+                3 => multi_rule_text(),
+                2 => Just("There are 3 very boring things, apples, pears and plums. The house of the neighbour seems nice; it is very good.".to_string()),
+            ];
+            (user_entries(), default_off, 0u8..4, text)
+                .prop_map(|(mut user, extra, dialect, text)| {
+                    user.extend(extra);
+                    LspCfgCase { user, dialect, text }
+                })
+                .boxed()
+        },
+        test_lsp_config,
+    );
+    run.threads = saved;
+    run.require_class("language_server_settings", "has_lints", (n / 3) as u64);
+    run.require_class("language_server_settings", "turns_on_a_default_off_rule", (n / 5) as u64);
 }
 
 pub fn replay(check: &str, case: Value, _run: &mut Run) -> Result<(), String> {
@@ -410,6 +532,16 @@ pub fn replay(check: &str, case: Value, _run: &mut Run) -> Result<(), String> {
         "overlay_algebra" => {
             let c: OverlayCase = serde_json::from_value(case).map_err(|e| e.to_string())?;
             test_overlay(&c, &mut ctx)
+        }
+        "language_server_settings" => {
+            let c: LspCfgCase = serde_json::from_value(case).map_err(|e| e.to_string())?;
+            let r = test_lsp_config(&c, &mut ctx);
+            SRV.with(|s| {
+                if let Some((_, srv, _)) = s.borrow_mut().take() {
+                    let _ = srv.shutdown();
+                }
+            });
+            r
         }
         "harper_js_config" => {
             let c: WasmCfgCase = serde_json::from_value(case).map_err(|e| e.to_string())?;
